@@ -1,5 +1,6 @@
 #pragma once
 
+#include <deque>
 #include <type_traits>
 
 #include <QAtomicInt>
@@ -81,7 +82,12 @@ public:
         if (!m_thread)
             return;
 
-        while (m_pendingCount.loadAcquire() > 0) {
+        // Let the worker work off the backlog. Once the application object is gone Qt discards
+        // the events of secondary threads, so the worker would never be woken again and waiting
+        // would never end: then only the message it is working on is waited for and what is left
+        // in the queue is processed below, in this thread
+        while (m_pendingCount.loadAcquire() > 0
+               && (QCoreApplication::instance() || m_workerBusy.loadAcquire())) {
             locker.unlock();
             QThread::msleep(10);
             locker.relock();
@@ -96,6 +102,9 @@ public:
 
         m_thread.clear();
         m_worker = nullptr;
+
+        // Messages the worker did not get to
+        while (processQueued()) { }
     }
 
     bool process(LogMessage &lmsg) override
@@ -103,8 +112,12 @@ public:
         QMutexLocker locker(&m_mutex);
 
         if (m_worker) {
+            {
+                QMutexLocker queueLocker(&m_queueMutex);
+                m_queue.emplace_back(lmsg);
+            }
             m_pendingCount.fetchAndAddOrdered(1);
-            QCoreApplication::postEvent(m_worker, new LogEvent(lmsg));
+            QCoreApplication::postEvent(m_worker, new LogEvent());
         } else {
             BaseHandler::process(lmsg);
         }
@@ -112,18 +125,32 @@ public:
     }
 
 private:
+    // The messages wait in m_queue, owned by the handler, so that a stop can still process them
+    // when the worker can no longer be woken; the event only tells the worker to take the next one
     struct LogEvent : public QEvent
     {
-        LogEvent(const LogMessage &lmsg) : QEvent(type()), lmsg(lmsg) { }
+        LogEvent() : QEvent(type()) { }
 
         static QEvent::Type type()
         {
             static QEvent::Type _type = static_cast<QEvent::Type>(QEvent::registerEventType());
             return _type;
         }
-
-        LogMessage lmsg;
     };
+
+    bool processQueued()
+    {
+        QMutexLocker queueLocker(&m_queueMutex);
+        if (m_queue.empty())
+            return false;
+        LogMessage lmsg(m_queue.front());
+        m_queue.pop_front();
+        queueLocker.unlock();
+
+        BaseHandler::process(lmsg);
+        m_pendingCount.fetchAndSubOrdered(1);
+        return true;
+    }
 
     class Worker : public QObject
     {
@@ -133,11 +160,9 @@ private:
         void customEvent(QEvent *event) override
         {
             if (event->type() == LogEvent::type()) {
-                auto logEvent = dynamic_cast<LogEvent *>(event);
-                if (logEvent) {
-                    m_handler->BaseHandler::process(logEvent->lmsg);
-                    m_handler->m_pendingCount.fetchAndSubOrdered(1);
-                }
+                m_handler->m_workerBusy.storeRelease(1);
+                m_handler->processQueued();
+                m_handler->m_workerBusy.storeRelease(0);
             }
         }
 
@@ -149,7 +174,10 @@ private:
     QPointer<QThread> m_thread;
     Worker *m_worker = nullptr;
     QMutex m_mutex;
+    QMutex m_queueMutex;
+    std::deque<LogMessage> m_queue;
     QAtomicInt m_pendingCount;
+    QAtomicInt m_workerBusy;
 };
 
 } // namespace QtLogger
